@@ -16,7 +16,10 @@ def hdlc_suffix(rng, cfg, n: int, max_info: int | None = 60):
     out += b"\x7e"
     for i in range(n):
         while True:
-            fr, _d = hdlc_gen.good_frame(rng, ids, max_info=max_info if rng.random() < 0.9 else None, want_info=True, dense=rng.random() < 0.3)
+            if rng.random() < 0.12:
+                fr, _d, _k = hdlc_gen.special_frame(rng, ids, rng.choice(("near_max_dense", "fcs_zero", "hcs_zero", "fcs_ends_7d", "reg_zero_mid")) if stuffing else rng.choice(("fcs_zero", "hcs_zero", "reg_zero_mid")))
+            else:
+                fr, _d = hdlc_gen.good_frame(rng, ids, max_info=max_info if rng.random() < 0.9 else None, want_info=True, dense=rng.random() < 0.3)
             if stuffing:
                 break
             if 0x7E not in fr and hdlc_gen.in_plain_domain(fr, abort):
@@ -49,6 +52,10 @@ def judge_delivery(required: list[bytes], sent: list[bytes], returned: list[tupl
         yield ("duplicated", f"a clean message was delivered more than once (indices {seen_idx})")
     elif seen_idx != sorted(seen_idx):
         yield ("reordered", f"clean messages delivered out of order (indices {seen_idx})")
+    # a message returned byte-identical to a clean one but reported invalid: the noise corrupted its validation
+    invalid_identical = [pos[o] for o, v in returned if not v and o in pos]
+    if invalid_identical:
+        yield ("clean-message-returned-invalid", f"clean messages {invalid_identical} were returned byte-identical but reported invalid")
     have = set(valid_octets)
     missing = [i for i, s in enumerate(sent) if s in required and s not in have]
     if missing:
